@@ -164,3 +164,33 @@ def explore_many(pool, jobs, bound, judge, chunk=8, cap_per_task=10**9, progress
             if progress and n % 50 == 0:
                 progress(n, len(tasks))
     return out
+
+
+def jobs_task(arg):
+    """Worker: run each job once under its base schedule (d = 0) and judge it."""
+    stats = _empty_stats()
+    t0 = time.time()
+    per = []
+    for key, job in arg["jobs"]:
+        res = _run(job, [])
+        verdict = _judge(arg["judge"], job, res)
+        nv = len(stats["violations"])
+        _account(stats, job, [], res, verdict)
+        for v in stats["violations"][nv:]:
+            v["key"] = key
+        per.append((key, res["finished"], res["n_steps"]))
+    stats["sigs"] = list(stats["sigs"])
+    stats["wall"] = time.time() - t0
+    stats["per"] = per
+    return stats
+
+
+def run_family(pool, jobs, judge, chunk=12):
+    """jobs: list of (key, job). Every member is executed once (base schedule). Returns merged stats."""
+    tasks = [dict(jobs=jobs[i : i + chunk], judge=judge) for i in range(0, len(jobs), chunk)]
+    stats = _empty_stats()
+    stats["per"] = []
+    for st in pool.imap("vf.explore", "jobs_task", tasks):
+        merge(stats, st)
+        stats["per"].extend(st["per"])
+    return stats
